@@ -208,7 +208,11 @@ self[[self._rowid.index(_rowid) for _rowid in key._rowid]] = val
 if key != self._datamatrix:
     raise ValueError('Cannot slice column with a different DataMatrix')
 orig_indices = self._rowid_argsort()
-matching_indices = np.searchsorted(self._rowid[orig_indices], key._rowid)
+sorted_rowid = self._rowid[orig_indices]
+matching_indices = np.searchsorted(sorted_rowid, key._rowid)
+for i, _rowid in zip(matching_indices, key._rowid):
+    if i >= len(sorted_rowid) or sorted_rowid[i] != _rowid:
+        raise KeyError(_rowid)
 self[orig_indices[matching_indices]] = val
 ''')
     # NumericColumn / FloatColumn do not override the cell / slice / index-list setters
